@@ -181,3 +181,14 @@ def real_chain_final(js_list):
     except runner.HangError:
         return dict(traces=['HANG'] * len(scs), final=[])
     return dict(traces=traces, final=[[1 if w.sock_open else 0, 1 if w.sel_open else 0] for w in worlds])
+
+
+def real_one_calls(sc_json):
+    """like real_one, plus the per-call record of the application's calls (world.calls)"""
+    sc = scenario_from_json(sc_json)
+    worlds = []
+    try:
+        tr = world.run_chain([sc], worlds)[0]
+    except runner.HangError:
+        return dict(trace='HANG', calls=[])
+    return dict(trace=tr, calls=worlds[0].calls)
